@@ -44,7 +44,7 @@ func genC(t *rapid.T) CCase {
 
 func runC(c CCase) error {
 	st := getStub()
-	st.reset(c.Chain)
+	ep := st.reset(c.Chain)
 	s, err := fx.StartServer(fx.WithTCPMux(false), fx.WithCfg(func(sc *v1.ServerConfig, b *fx.Block) {
 		sc.UserConnTimeout = 1
 		if c.HB {
@@ -54,7 +54,7 @@ func runC(c CCase) error {
 			sc.Auth.AdditionalScopes = []v1.AuthScope{v1.AuthScopeNewWorkConns}
 		}
 		for i, p := range c.Chain {
-			sc.HTTPPlugins = append(sc.HTTPPlugins, v1.HTTPPluginOptions{Name: fmt.Sprintf("p%d", i), Addr: st.srv.Listener.Addr().String(), Path: fmt.Sprintf("/p%d", i), Ops: p.Ops})
+			sc.HTTPPlugins = append(sc.HTTPPlugins, v1.HTTPPluginOptions{Name: fmt.Sprintf("p%d", i), Addr: st.srv.Listener.Addr().String(), Path: pluginPath(ep, i), Ops: p.Ops})
 		}
 	}))
 	if err != nil {
